@@ -491,7 +491,17 @@ def r15_6(run):
     run.floor('R15.6', 'suspension points in the creation coroutines', k, 12)
 
 
+def r15_9(run):
+    """the subscription is removed afterwards: the wait ends from *inside* an HS_DESC delivery, so remove_event_listener() runs during
+    delivery - its "last listener gone -> forget the event, SETEVENTS" decision must see the removal at once.  The listener-table
+    discipline of C02 (R02.3 snapshot iteration / copy-on-write unlisten, R02.5 table + SETEVENTS), shared"""
+    from . import c02
+    borrow(run, c02.r02_3, 'R15.9')
+    borrow(run, c02.r02_5, 'R15.9')
+
+
 RULES = [
+    ('R15.9', 'unsubscribing from inside a delivery takes effect at once (R02.3 / R02.5 borrowed): the HS_DESC subscription really ends', r15_9),
     ('R15.8', 'parameter flow: await_all_uploads is handed on unchanged along create() -> helper -> _await_descriptor_upload', r15_8),
     ('R15.7', 'outcome oracle: path enumeration of hs_desc over (event kind, waiting mode, all-failed, any-confirmed, all-answered) with the wait still pending', r15_7),
     ('R15.6', 'no dropped Deferred in the creation coroutines (subscribe / command / wait / unsubscribe are all awaited)', r15_6),
